@@ -43,6 +43,8 @@ from calmjs.parse.unicode_chars import (
 )
 from calmjs.parse.utils import format_lex_token
 
+unichr = chr if str is not bytes else unichr  # noqa: F821
+
 # See "Regular Expression Literals" at
 # http://www.mozilla.org/js/language/js20-2002-04/rationale/syntax.html
 TOKENS_THAT_IMPLY_DIVISON = frozenset([
@@ -715,7 +717,16 @@ class Lexer(object):
         r'|' + DIGIT + r'|' + CONNECTOR_PUNCTUATION + r'|' +
         r'[\u200c\u200d]' + r')*'             # <ZWNJ> <ZWJ>
     )
-    identifier = identifier_start + identifier_part
+    plain_identifier = identifier_start + identifier_part
+    # any character of an identifier may be written as a unicode escape
+    # sequence (7.6); t_ID checks the characters they stand for.
+    unicode_escape = r'\\u[0-9a-fA-F]{4}'
+    identifier = (
+        r'(?:' + identifier_start + r'|' + unicode_escape + r')' +
+        r'(?:' + identifier_part[:-1] + r'|' + unicode_escape + r')*'
+    )
+    patt_plain_identifier = re.compile(plain_identifier + r'$', flags=re.U)
+    patt_unicode_escape = re.compile(r'\\u([0-9a-fA-F]{4})')
 
     getprop = r'get' + r'(?=\s' + identifier + r')'
 
@@ -731,6 +742,13 @@ class Lexer(object):
 
     @ply.lex.TOKEN(identifier)
     def t_ID(self, token):
+        if '\\' in token.value and not self.patt_plain_identifier.match(
+                self.patt_unicode_escape.sub(
+                    lambda m: unichr(int(m.group(1), 16)), token.value)):
+            # an escaped character that must not appear at its position
+            token.lexpos += token.value.index('\\')
+            token.value = '\\'
+            return self.t_error(token)
         token.type = self.keywords_dict.get(token.value, 'ID')
         return token
 
